@@ -54,6 +54,7 @@ class SpecMixin:
             raise StaleContract("forall/exists needs a lambda")
         names = [a.arg for a in lam.args.args]
         st2 = st.copy()
+        st2.in_binder = True
         vars_ = []
         guards = []
         if len(tys) == 1 and len(names) >= 1 and not (isinstance(tys[0], ast.Name) and tys[0].id in SPEC_TYPES):
@@ -93,6 +94,7 @@ class SpecMixin:
         from .state import fresh_mark
         mark = fresh_mark()
         try:
+            st2.binder_vars = list(st.binder_vars) + list(vars_)
             body = self.truthy(self.ev(lam.body, st2, ctx), st2)
         finally:
             self._bound_stack.pop()
